@@ -795,16 +795,27 @@ func (n *normalizer) exprHelper(x *ast.CallExpr) bool {
 		}
 		break
 	}
-	id, ok := fun.(*ast.Ident)
-	if !ok {
+	var id *ast.Ident
+	var recvArg ast.Expr
+	switch f := fun.(type) {
+	case *ast.Ident:
+		id = f
+	case *ast.SelectorExpr:
+		// a method of the repository called on a plain operand: the receiver is its first parameter
+		if sel, isSel := n.info.Selections[f]; isSel && sel.Kind() == types.MethodVal && len(sel.Index()) == 1 && simpleOperand(f.X) {
+			id, recvArg = f.Sel, f.X
+		}
+	}
+	if id == nil {
 		return false
 	}
 	fo, ok := n.info.ObjectOf(id).(*types.Func)
 	if !ok || fo.Exported() {
 		return false
 	}
+	fo = fo.Origin()
 	sig, okS := fo.Type().(*types.Signature)
-	if !okS || sig.Recv() != nil || sig.Variadic() {
+	if !okS || (sig.Recv() != nil) != (recvArg != nil) || sig.Variadic() {
 		return false
 	}
 	fd, fi := PtrWrapperDecl(fo)
@@ -816,12 +827,20 @@ func (n *normalizer) exprHelper(x *ast.CallExpr) bool {
 		return false
 	}
 	var params []types.Object
+	args := x.Args
+	if recvArg != nil {
+		if fd.Recv == nil || len(fd.Recv.List) != 1 || len(fd.Recv.List[0].Names) != 1 {
+			return false
+		}
+		params = append(params, fi.ObjectOf(fd.Recv.List[0].Names[0]))
+		args = append([]ast.Expr{recvArg}, args...)
+	}
 	for _, f := range fd.Type.Params.List {
 		for _, nm := range f.Names {
 			params = append(params, fi.ObjectOf(nm))
 		}
 	}
-	if len(params) != len(x.Args) {
+	if len(params) != len(args) {
 		return false
 	}
 	uses := map[types.Object]int{}
@@ -833,15 +852,15 @@ func (n *normalizer) exprHelper(x *ast.CallExpr) bool {
 		}
 		return true
 	})
-	for _, prm := range params {
-		if uses[prm] != 1 {
+	for i, prm := range params {
+		if uses[prm] != 1 && !simpleOperand(args[i]) {
 			return false
 		}
 	}
 	sub := &normalizer{info: fi, names: map[types.Object]string{}, Fresh: n.Fresh, inline: map[types.Object][]string{}}
 	for i, prm := range params {
 		mark := len(n.out)
-		n.expr(x.Args[i])
+		n.expr(args[i])
 		sub.inline[prm] = append([]string{}, n.out[mark:]...)
 		n.out = n.out[:mark]
 	}
@@ -850,6 +869,21 @@ func (n *normalizer) exprHelper(x *ast.CallExpr) bool {
 	helperDepth--
 	n.emit(sub.out...)
 	return true
+}
+
+// simpleOperand: an identifier, a field selection chain or a literal - evaluating it twice, or not at all, changes nothing.
+func simpleOperand(e ast.Expr) bool {
+	switch x := e.(type) {
+	case *ast.Ident, *ast.BasicLit:
+		return true
+	case *ast.ParenExpr:
+		return simpleOperand(x.X)
+	case *ast.SelectorExpr:
+		return simpleOperand(x.X)
+	case *ast.StarExpr:
+		return simpleOperand(x.X)
+	}
+	return false
 }
 
 // PtrWrapperDecl gives the declaration (and its type information) of a function of the repository; set by the rule
